@@ -282,7 +282,8 @@ pub fn gen_world(idx: usize, rng: &mut Rng) -> World {
             if (tr == "Main" || ty == "Main") && q != "Main" {
                 continue;
             }
-            let which = if rng.chance(1, 2) { "S" } else { "R" }.to_string();
+            // `int32` is one type: there is no second struct to pick
+            let which = if ty != "int32" && rng.chance(1, 2) { "R" } else { "S" }.to_string();
             let im = Impl { file: 0, tr, ty, which };
             // now and then the same impl a second time, in this package or in another one
             if rng.chance(1, 4) {
@@ -341,7 +342,7 @@ pub fn main(args: &util::Args) {
     util::quiet_panics();
     std::fs::create_dir_all(&args.out).unwrap();
     let quick = args.tier != "thorough";
-    let n = args.n.unwrap_or(if quick { 700 } else { 6000 });
+    let n = args.n.unwrap_or(if quick { 2000 } else { 20000 });
     let base = util::scratch_dir("c16");
     let mut rng = Rng::new(args.seed ^ 0xC16);
     let mut out = String::new();
